@@ -45,6 +45,8 @@ type TotalCase struct {
 	Props    bool                   `json:"props,omitempty"`
 	UseStep  bool                   `json:"useStep,omitempty"`
 	Deadline int                    `json:"deadlineMs"`
+	// ByCancel: the context ends by cancellation instead of a deadline
+	ByCancel bool `json:"byCancel,omitempty"`
 	// KnotNode (Go-built specs): this node's action is replaced by a
 	// native action that binds self-containing values
 	KnotNode string `json:"knotNode,omitempty"`
@@ -137,6 +139,7 @@ func genTotal(t *rapid.T) TotalCase {
 	c.Props = rapid.Bool().Draw(t, "props")
 	c.UseStep = rapid.IntRange(0, 3).Draw(t, "useStep") == 0
 	c.Deadline = rapid.SampledFrom([]int{0, 5, 30, 30}).Draw(t, "deadline")
+	c.ByCancel = rapid.Bool().Draw(t, "byCancel")
 	return c
 }
 
@@ -407,13 +410,20 @@ func checkTotal(c TotalCase) (v ev.Verdict) {
 	v.Class("compiled")
 	// run
 	ctx := context.Background()
-	if c.Deadline > 0 {
+	if limit := c.Deadline; limit > 0 || specSpins(c.Spec) {
+		if limit == 0 {
+			limit = 30
+		}
 		var cancel context.CancelFunc
-		ctx, cancel = context.WithTimeout(ctx, time.Duration(c.Deadline)*time.Millisecond)
-		defer cancel()
-	} else if specSpins(c.Spec) {
-		var cancel context.CancelFunc
-		ctx, cancel = context.WithTimeout(ctx, 30*time.Millisecond)
+		if c.ByCancel {
+			// the host gives up by cancelling, not by a deadline
+			ctx, cancel = context.WithCancel(ctx)
+			tm := time.AfterFunc(time.Duration(limit)*time.Millisecond, cancel)
+			defer tm.Stop()
+			v.Class("context-cancelled")
+		} else {
+			ctx, cancel = context.WithTimeout(ctx, time.Duration(limit)*time.Millisecond)
+		}
 		defer cancel()
 	}
 	st := &core.State{NodeName: c.Node}
